@@ -49,6 +49,24 @@ SEEDS = {
  'C06b-2': ('C06', 'C06b/mut2.diff', 'C06b/demo_mut2.rs', 'apply_slotmap_fresh called twice (children / result node): a redundant slot in a slot field and in a child argument of the cheapest node'),
  'C10b-1': ('C10', 'C10b/mut1.diff', 'C10b/demo_mut1.rs', 'schreiers_lemma skips the identity coset representative: needs >= 5 slots, e.g. generators (3 4) and (0 1)(2 3)'),
  'C10b-2': ('C10', 'C10b/mut2.diff', 'C10b/demo_mut2.rs', 'add_set fast path into the stabiliser without rebuilding the upper level: swap (0 1) first, then swap (1 2)'),
+ 'C05b-1': ('C05', 'C05b/mut1.diff', 'C05b/demo_mut1.rs', 'ematch_node zips the pattern node slots with n2 (children included) instead of clear_n2: node type with a child in front of a binder or slot, leading child with slots'),
+ 'C05b-2': ('C05', 'C05b/mut2.diff', 'C05b/demo_mut2.rs', 'multipat update_state re-canonicalises only the keys of the disequality constraints: both ends renamed, one by a flexible-to-flexible union; four-equation multi-pattern'),
+ 'C11b-1': ('C11', 'C11b/mut1.diff', 'C11b/demo_mut1.rs', 'Group::add_set pushes perms that fix the stabilised slot into the inner group only (same idea as C10b-2, found independently): outcome depends on the sort order of the names'),
+ 'C11b-2': ('C11', 'C11b/mut2.diff', 'C11b/demo_mut2.rs', 'Group::generators_impl returns only the top layer (same site as C10-2): needs a stabiliser chain of depth >= 2, e.g. three independent swaps on six slots'),
+ 'C12b-1': ('C12', 'C12b/mut1.diff', 'C12b/demo_mut1.rs', 'touched_class overwrites the pending type: a later OnlyAnalysis touch downgrades a Full one; needs an analysis whose data changes during the union, terms inserted before the union'),
+ 'C12b-2': ('C12', 'C12b/mut2.diff', 'C12b/demo_mut2.rs', 'determine_self_symmetries stops after the first new symmetry: parent of a class with S3 (or of two symmetric children) inserted after the symmetries were asserted'),
+ 'C14b-1': ('C14', 'C14b/mut1.diff', 'C14b/demo_mut1.rs', 'update_analysis does not re-queue parents of a class already in the modify queue: datum improves twice within one rebuild (same child at two depths)'),
+ 'C14b-2': ('C14', 'C14b/mut2.diff', 'C14b/demo_mut2.rs', 'touched_class keeps the first pending type (OnlyAnalysis never upgraded to Full): parent queued analysis-only whose child is merged away by congruence in the same rebuild, then a later improvement'),
+ 'C15b-1': ('C15', 'C15b/mut1.diff', 'C15b/demo_mut1.rs', 'EGraph::progress sums syntactic slots: a round whose only effect is a new redundancy reports no change'),
+ 'C15b-2': ('C15', 'C15b/mut2.diff', 'C15b/demo_mut2.rs', 'Runner::run_one checks the limits before the iteration rewrites: NodeLimit reported for a final state below the limit (node count shrinks by congruence)'),
+ 'C16b-1': ('C16', 'C16b/mut1.diff', 'C16b/demo_mut1.rs', 'Bind::all_slot_occurrences_iter_mut chains the public occurrences of the element: only nested binders Bind<Bind<T>> lose the inner binder in the mutable list'),
+ 'C16b-2': ('C16', 'C16b/mut2.diff', 'C16b/demo_mut2.rs', 'refresh_private renames by slot name instead of private position: bound slot named like a free slot of the same node'),
+ 'C17b-1': ('C17', 'C17b/mut1.diff', 'C17b/demo_mut1.rs', 'Slot::named strips all leading f characters: $ff3 decodes as $f3'),
+ 'C17b-2': ('C17', 'C17b/mut2.diff', 'C17b/demo_mut2.rs', 'numeric names encoded with a shift instead of checked_mul: numerals >= 2^30 alias small numeric slots'),
+ 'C18b-1': ('C18', 'C18b/mut1.diff', 'C18b/demo_mut1.rs', 'tokenizer fast path Slot::numeric for numerals: $1073741824 panics (dev) / aliases $0 (release)'),
+ 'C18b-2': ('C18', 'C18b/mut2.diff', 'C18b/demo_mut2.rs', 'MultiPattern::parse skips a non-variable child: ?x == (f ?a zero) accepted with one child on a binary node'),
+ 'C19b-1': ('C19', 'C19b/mut1.diff', 'C19b/demo_mut1.rs', 'SlotMap::remove of an absent key deletes the entry with the next larger key'),
+ 'C19b-2': ('C19', 'C19b/mut2.diff', 'C19b/demo_mut2.rs', 'SlotMap::union skips pairs whose value is already a key: slot sharing between the two sides, e.g. {0->1,1->2} u {2->0}'),
  'C16-2': ('C16', 'C16/mut2.diff', 'C16/demo_mut2.rs', 'Bind::public_slot_occurrences_iter leaks inner binders: nested Bind<Bind<T>>'),
 }
 def main():
